@@ -64,6 +64,9 @@ def main(tier):
                 # boundary positions (first and last local refit) plus a random one
                 for k in sorted({1, L, rng.randrange(1, L + 1)}):
                     plans.append([dict(seam="update", k=k)])
+                # the fallback's posterior (previous hyperparameters, new training set) fails too, 1-3 times in a row
+                for k in sorted({1, rng.randrange(1, L + 1)}):
+                    plans.append([dict(seam="update", k=k, len=rng.randrange(2, 5))])
                 plans.append([dict(seam="update", k=rng.randrange(1, L + 1)), dict(seam="fit", k=rng.randrange(1, M + 1), len=2, kind="mid")])
         else:
             for k in range(1, M + 1):
@@ -76,6 +79,7 @@ def main(tier):
                               for _ in range(rng.randrange(2, 4))])
             for k in range(1, min(L, 60) + 1, 1 if bi < 6 else 5):
                 plans.append([dict(seam="update", k=k)])
+                plans.append([dict(seam="update", k=k, len=2 + (k % 3))])
             for _ in range(6 if L else 0):
                 plans.append([dict(seam="update", k=rng.randrange(1, L + 1)), dict(seam="fit", k=rng.randrange(1, M + 1), len=rng.randrange(1, 4), kind="mid")])
         for pl in plans:
@@ -127,7 +131,7 @@ def main(tier):
         exhaustive=False, outcomes=dict(outcomes), fault_fired=dict(fired), fault_plan_shapes=dict(shapes), probes=dict(probes),
         runs_per_hour=int((len(cases) + len(bs)) / max(wall, 1e-9) * 3600),
         components=dict(real=["pybads", "gpyreg", "scipy", "numpy"], stub=["target", "constraint function", "clock"],
-                        fault_shims=["GP.fit raises LinAlgError at entry or after replacing the training data", "GP.update (posterior update in local refit) raises LinAlgError"]),
+                        fault_shims=["GP.fit raises LinAlgError at entry or after replacing the training data", "GP.update (posterior update in local refit) raises LinAlgError, optionally also in the 1-3 following posterior computations of the fallback"]),
     )
     return rep.finish(cov, runlevel.COMMON_ASSUME + [
         "under faults the oracle asks only for completion plus the bounds (C01), feasibility (C02), counting/budget/max_iter (C03 a-c) and truthful-result (C04) monitors; no convergence requirement"],
